@@ -1,5 +1,6 @@
 (** Evaluator glue for C03. *)
-From AGH Require Export Base.Run Base.NetAddr Base.RuleEngine Model.Access Model.AccessPersist.
+From AGH Require Export Base.Run Base.NetAddr Base.RuleEngine Model.Access Model.AccessPersist Model.AccessGlue.
+From AGH Require Model.TLSGlue.
 Local Open Scope N_scope.
 
 Definition rulekind_eqb (a b : rulekind) : bool :=
@@ -79,7 +80,14 @@ Inductive case :=
      the step ([None]: the same as after the previous step, at first the
      file's) *)
   | CPersist (c0 : lists) (srv : bytes) (strict : bool) (ops : list pop)
-             (obs : list (pobs * option (list bytes * list bytes * list bytes))).
+             (obs : list (pobs * option (list bytes * list bytes * list bytes)))
+  (* a TLS section through the real newDNSTLSConfig (package home) into a
+     dnsforward.Server with the given client lists, then HandleBefore:
+     observed: ServerName and StrictSNICheck handed over ([None]: the glue
+     returned an error) and the hook's outcome *)
+  | CHome (enabled : bool) (name : bytes) (strict : bool) (https dot doq : N) (pair_ok addrs : bool)
+          (allowed blocked : list entry) (x : dnsctx)
+          (obs_handed : option (bytes * bool)) (obs : option before).
 
 Definition set_result_eqb (a b : set_result) : bool :=
   match a, b with
@@ -143,6 +151,14 @@ Definition case_ok (c : case) : bool :=
       let '(c, o) := run_hist cap (new_access al bl hosts) (mkTlsConf srv strict) nil ops in
       eqb_list hobs_eqb o obs && (N.of_nat (length c) =? n)
   | CEvict cap n obs => eqb_bytes (evict_read cap n) obs
+  | CHome en name strict https dot doq pair_ok addrs al bl x oh ob =>
+      match Model.TLSGlue.new_dns_tls_config false (mk_setts en name strict https dot doq) pair_ok addrs, oh, ob with
+      | Some d, Some (n, st), Some b =>
+          eqb_bytes (Model.TLSGlue.dt_server_name d) n && Bool.eqb (Model.TLSGlue.dt_strict d) st &&
+          (before_class (handle_before_ctx (new_access al bl nil) (handed_tlsconf d) x) =? before_class b)
+      | None, None, None => true
+      | _, _, _ => false
+      end
   | CPersist c0 srv strict ops obs =>
       match persist_trace c0 srv strict ops with
       | Some tr => eqb_list (fun a b => pobs_eqb (fst a) (fst b) && texts_eqb (snd a) (snd b)) tr
@@ -159,6 +175,10 @@ Definition explain (c : case) :=
   match c with
   | CPersist c0 srv strict ops _ =>
       (false, RkNone, BDrop, @nil hobs, persist_trace c0 srv strict ops)
+  | CHome en name strict https dot doq pair_ok addrs al bl x _ _ =>
+      (false, RkNone,
+       match before_via_home (new_access al bl nil) (mk_setts en name strict https dot doq) pair_ok addrs x with
+       | Some b => b | None => BDrop end, @nil hobs, no_trace)
   | CDecide al bl ip id _ _ =>
       let r := is_blocked_client (new_access al bl nil) ip id in
       (fst r, snd r, BDrop, @nil hobs, no_trace)
